@@ -54,7 +54,19 @@ LIST_FORMS = {
     "push_into": (["xl.push(d)", "acc = d"], lambda x, d: ([], d)),
     "index_of": (["acc = (xl.index_of(d)) or 9"], lambda x, d: ([], x.index(d) if d in x else 9)),
 }
-ALL = sorted(list(FORMS) + list(OPT_FORMS) + list(BOOL_FORMS) + list(LIST_FORMS))
+LIST_FORMS["assign_target"] = (["xl[0] = d", "acc = d"], lambda x, d: ([], d))
+LIST_FORMS["opassign_target"] = (["xl[1] += d", "acc = d"], lambda x, d: ([], d))
+MAP_FORMS = {
+    "map_assign_target": (['xm["k"] = d', "acc = d"], lambda x, d: ([], d)),
+    "map_read": (['acc = (xm["a"]) or 0'], lambda x, d: ([], x)),
+    "map_receiver": (["acc = xm.len()"], lambda x, d: ([], 1)),
+}
+OBJ_FORMS = {
+    "field_assign_target": (["xk.v = d", "acc = d"], lambda x, d: ([], d)),
+    "field_read": (["acc = xk.v"], lambda x, d: ([], x)),
+    "method_receiver": (["acc = xk.plus(d)"], lambda x, d: ([], x + d)),
+}
+ALL = sorted(list(FORMS) + list(OPT_FORMS) + list(BOOL_FORMS) + list(LIST_FORMS) + list(MAP_FORMS) + list(OBJ_FORMS))
 
 
 def generate(rng):
@@ -79,6 +91,12 @@ def render(spec):
     elif form in LIST_FORMS:
         name, decl, val, table = "xl", "xl: [int...] = [p, 3]", [p, 3], LIST_FORMS
         decoy = "xl: [int...] = [7, 7, 7, 7, 7]"
+    elif form in MAP_FORMS:
+        name, decl, val, table = "xm", 'xm = map[str, int] {"a": p}', p, MAP_FORMS
+        decoy = 'xm = map[str, int] {"a": 777, "b": 1, "c": 2}'
+    elif form in OBJ_FORMS:
+        name, decl, val, table = "xk", "xk = KC(p)", p, OBJ_FORMS
+        decoy = "xk = KC(777)"
     else:
         name, table = "x", FORMS
         if spec.get("owner") == "param":
